@@ -49,6 +49,7 @@ type e2eOp struct {
 	Peers []int    `json:"peers,omitempty"`
 	K     int      `json:"k,omitempty"`
 	Hex   string   `json:"hex,omitempty"`
+	Rev   bool     `json:"rev,omitempty"` // gossip: deliver the pending broadcasts in reverse order
 }
 type e2eInput struct {
 	Nodes int     `json:"nodes"`
@@ -538,11 +539,20 @@ func (e2eFamily) Exec(id int, raw json.RawMessage) Case {
 			src := cl.nodes[o.Src]
 			src.drain()
 			from := delivered[[2]int{o.Src, o.N}]
-			for _, m := range src.out[from:] {
-				node.dstate.Distributor().NotifyMsg(m)
+			pending := src.out[from:]
+			if o.Rev {
+				// gossip does not keep the order in which broadcasts were queued
+				for i := len(pending) - 1; i >= 0; i-- {
+					node.dstate.Distributor().NotifyMsg(pending[i])
+				}
+				opT = fmt.Sprintf("EGossipRev %s %s", cqNat(o.Src), cqNat(o.N))
+			} else {
+				for _, m := range pending {
+					node.dstate.Distributor().NotifyMsg(m)
+				}
+				opT = fmt.Sprintf("EGossip %s %s", cqNat(o.Src), cqNat(o.N))
 			}
 			delivered[[2]int{o.Src, o.N}] = len(src.out)
-			opT = fmt.Sprintf("EGossip %s %s", cqNat(o.Src), cqNat(o.N))
 		case "snapshot":
 			buf := cl.nodes[o.Src].dstate.Distributor().LocalState(false)
 			node.dstate.Distributor().MergeRemoteState(buf, true)
